@@ -34,35 +34,12 @@ Inductive event :=
 | EEntered (t : nat) (initiator : bool)
 | ELeft (t : nat) (finisher : bool).
 
-Record state := mkS {
-  sc : Z;                  (* size_ctl *)
-  ti : Z;                  (* transfer_index *)
-  nt : bool;               (* next_table is non-null *)
-  swapped : bool;          (* table now points to the new table *)
-  bins : list binstate;    (* the old table *)
-  pcs : list pc;           (* one per thread *)
-  log : list event         (* ghost: most recent first *)
-}.
+Inductive phase := PLoad | PAct.
+Inductive tpc := T (ph : phase) (p : pc).
 
-Section Proto.
-Variable n : Z.            (* old table length *)
-Variable ncpu : Z.
-Definition rs_ : Z := rs n.
-Definition stride_ : Z := stride n ncpu.
+Section Head.
+Variable n : Z.
 Definition next_n : Z := transfer_new_len n.
-
-Definition get_pc (s : state) (t : nat) : pc := nth t (pcs s) Gone.
-Definition set_pc (s : state) (t : nat) (p : pc) : state :=
-  mkS (sc s) (ti s) (nt s) (swapped s) (bins s) (firstn t (pcs s) ++ p :: skipn (S t) (pcs s)) (log s).
-Definition emit (s : state) (e : event) : state :=
-  mkS (sc s) (ti s) (nt s) (swapped s) (bins s) (pcs s) (e :: log s).
-Definition set_sc (s : state) (v : Z) : state := mkS v (ti s) (nt s) (swapped s) (bins s) (pcs s) (log s).
-Definition set_ti (s : state) (v : Z) : state := mkS (sc s) v (nt s) (swapped s) (bins s) (pcs s) (log s).
-Definition set_nt (s : state) (v : bool) : state := mkS (sc s) (ti s) v (swapped s) (bins s) (pcs s) (log s).
-Definition set_swapped (s : state) : state := mkS (sc s) (ti s) (nt s) true (bins s) (pcs s) (log s).
-Definition get_bin (s : state) (i : nat) : binstate := nth i (bins s) BFwd.
-Definition set_bin (s : state) (i : nat) (b : binstate) : state :=
-  mkS (sc s) (ti s) (nt s) (swapped s) (firstn i (bins s) ++ b :: skipn (S i) (bins s)) (pcs s) (log s).
 
 (* local part of the loop head: the `while advance` loop up to its first shared operation, then
    the finished test. Returns the next pc (whose step performs the shared operation). *)
@@ -71,12 +48,8 @@ Definition after_claim (l : locals) : pc :=
     if lfinishing l then Pub1 l else LeaveCas l 0   (* LeaveCas's first half: load sc (see step) *)
   else AtBin l BEmpty.                               (* AtBin's first half: load the bin *)
 
-(* pcs that stand for "about to do the load" are distinguished by a flag below *)
-Inductive phase := PLoad | PAct.
-
-(* To keep one shared operation per step, LeaveCas and AtBin and ClaimCas are entered in a
-   "load" phase first. We encode the phase in the thread's pc by wrapping: *)
-Inductive tpc := T (ph : phase) (p : pc).
+(* To keep one shared operation per step, LeaveCas, AtBin and ClaimCas are entered in a "load"
+   phase (PLoad) first; PAct is the phase in which the pc's own operation is performed. *)
 
 (* ---- one step of thread t whose current pc is p (phase ph) ---- *)
 Definition loop_head (l : locals) : tpc :=
@@ -96,9 +69,8 @@ Definition loop_head (l : locals) : tpc :=
     | p => T PLoad p
     end.
 
-End Proto.
+End Head.
 
-(* The thread table holds tpc; redefine state over tpc. *)
 Record cfg := mkC {
   c_sc : Z; c_ti : Z; c_nt : bool; c_swapped : bool;
   c_bins : list binstate; c_thr : list tpc; c_log : list event
